@@ -956,8 +956,8 @@ func (g *graph) toGraphInfo(opt *graphCompileOptions, key2SubGraphs map[string]*
 				InputType:        gNode.cr.inputType,
 				OutputType:       gNode.cr.outputType,
 				Name:             gNode.nodeInfo.name,
-				InputKey:         gNode.cr.nodeInfo.inputKey,
-				OutputKey:        gNode.cr.nodeInfo.outputKey,
+				InputKey:         gNode.nodeInfo.inputKey,
+				OutputKey:        gNode.nodeInfo.outputKey,
 			}
 			continue
 		}
@@ -969,8 +969,8 @@ func (g *graph) toGraphInfo(opt *graphCompileOptions, key2SubGraphs map[string]*
 			InputType:        gNode.cr.inputType,
 			OutputType:       gNode.cr.outputType,
 			Name:             gNode.nodeInfo.name,
-			InputKey:         gNode.cr.nodeInfo.inputKey,
-			OutputKey:        gNode.cr.nodeInfo.outputKey,
+			InputKey:         gNode.nodeInfo.inputKey,
+			OutputKey:        gNode.nodeInfo.outputKey,
 			Mappings:         g.fieldMappingRecords[key],
 		}
 
